@@ -37,6 +37,7 @@ def run(chk):
     model = vlib.build_model()
     n = 60 if tier == "quick" else 600
     cases, meta = [], {}
+    metam = {}
     for i in range(n):
         r = chk.rng.fork()
         base = rulegen.rand_text(r, 3, 8).replace(b"\0", b"a")
@@ -129,6 +130,28 @@ def run(chk):
         cases.append(("J%d" % i, ["newcompiler", "add " + hx(tgt2.encode()), "getrules", "scanner 0"] + jscans))
         cases.append(("K%d" % i, ["newcompiler", "add " + hx((comp + tgt2).encode()), "getrules", "scanner 0"] + jscans))
         cases.append(("L%d" % i, ["newcompiler", "add " + hx((tgt2 + comp).encode()), "getrules", "scanner 0"] + jscans))
+        # M/N/O: a target whose atom is a proper suffix of the atom of a companion string, the companion's atom lying deep inside its string
+        # (large backtrack): in the state reached after the companion's atom the match list holds the companion's entry (cannot be verified near
+        # the start of a block) followed by the inherited entry of the target; data with the atom inside the first `backtrack` bytes of the block
+        t3 = bytes(r.choice(b"BCDFGHJKLMNPQRSTVWXZbcdfghjkmnpqrstvwxz") for _ in range(r.choice([2, 3, 3])))
+        lead = r.choice(b"BCDFGHJKLMNPQRSTVWXZ")
+        gap = r.range(4, 14)
+        # the companion must be a plain literal (a string with jumps/wildcards is verified through backward code and has a small backtrack);
+        # its leading bytes are low-quality atom material (00 / FF / 20), so the atom chosen is its tail
+        fillb = r.choice([0x00, 0x00, 0xFF, 0x20])
+        deep_s = "{ %s %02X %s }" % (" ".join("%02X" % fillb for _ in range(gap)), lead, " ".join("%02X" % c for c in t3))
+        if r.chance(1, 3):
+            deep_s = '"' + "".join("\\x%02x" % fillb for _ in range(gap)) + "%c%s" % (lead, t3.decode()) + '"' + r.choice(["", " ascii", " private"])
+        tgt3 = "rule target3 { strings: $t = \"%s\" condition: $t }\n" % t3.decode()
+        deep = "rule deep%d { strings: $d = %s condition: $d }\n" % (i, deep_s)
+        atom3 = bytes([lead]) + t3
+        mbufs = [atom3 + b"..", b"." + atom3, b"." * r.range(2, gap + 1) + atom3 + b".", b"." * (gap + 1) + atom3, bytes([fillb]) * gap + atom3 + b"!",
+                 atom3 + bytes([fillb]) * gap + atom3, bytes(r.bytes(3)) + atom3 + t3]
+        mscans = ["scan " + hx(b) for b in mbufs]
+        cases.append(("M%d" % i, ["newcompiler", "add " + hx(tgt3.encode()), "getrules", "scanner 0"] + mscans))
+        cases.append(("N%d" % i, ["newcompiler", "add " + hx((deep + tgt3).encode()), "getrules", "scanner 0"] + mscans))
+        cases.append(("O%d" % i, ["newcompiler", "add " + hx(tgt3.encode()), "ns nsX", "add " + hx(deep.encode()), "getrules", "scanner 0"] + mscans))
+        meta_m = (tgt3, deep, mbufs)
         # H/I: rule sets with a wildcard (`all of (pk_*)`) select rules of their OWN namespace only: namespace nsB alone (H) vs after a
         # namespace nsA that has rules with the same prefix and other verdicts (I)
         pk = "rule pk_1 { condition: filesize > %d }\nrule pk_2 { condition: true }\n" % r.choice([20, 40, 60])
@@ -139,6 +162,7 @@ def run(chk):
         cases.append(("I%d" % i, ["newcompiler", "ns nsA", "add " + hx(foreign.encode()), "ns nsB", "add " + hx((pk + users).encode()),
                                   "getrules", "scanner 0"] + scans))
         meta[i] = (target, others, bufs, imp)
+        metam[i] = meta_m
     out, err = vlib.run_cases(hscan, cases, timeout=3000, jobs=16)
     agree = 0
     nontriv = set()
@@ -198,6 +222,21 @@ def run(chk):
                                    "how": "h_scan cases J/K/L of checks/c05.py (seed %d, item %d)" % (chk.seed, i)})
                     bad = True
                     break
+        if not bad:
+            tgt3, deep, mbufs = metam[i]
+            lm = [rule_result(l, "target3") for l in out.get("M%d" % i, []) if l.startswith("scan msgs=")]
+            for v in "NO":
+                ln = [rule_result(l, "target3") for l in out.get("%s%d" % (v, i), []) if l.startswith("scan msgs=")]
+                if len(lm) != len(mbufs) or ln != lm:
+                    bi = next((k for k in range(min(len(lm), len(ln))) if lm[k] != ln[k]), 0)
+                    chk.violation("company:deep-atom-companion", "rule target3 alone: %s ; together with a rule whose atom ends with target3's atom and lies deep "
+                                  "inside its string: %s" % (lm[bi:bi + 1], ln[bi:bi + 1]),
+                                  {"target": tgt3, "companion": deep, "buffer_hex": hx(mbufs[bi]) if bi < len(mbufs) else None, "alone": lm, "company": ln,
+                                   "variant": v, "how": "h_scan: newcompiler; add <companion + target>; getrules; scanner 0; scan <buffer_hex>"})
+                    bad = True
+                    break
+                if any(x and x[0] == "M" for x in lm[:3]):
+                    chk.add("deep_atom_near_block_start_matches")
         if not bad:
             lh = [l for l in out.get("H%d" % i, []) if l.startswith("scan msgs=")]
             li = [l for l in out.get("I%d" % i, []) if l.startswith("scan msgs=")]
